@@ -157,6 +157,7 @@ theorem pushDefaultK_appends : ∀ (b : B) (k : Nat) (b' : B), WFB b → DefSafe
     have hv : VLen a.1 a.2.length := by simp only [WFB] at hw; exact hw.1
     rw [setValidityDefault_eq hv]
     obtain ⟨h1, h2⟩ := view_step hw false (packInline []) [] (decodeView_inline_isOk _ _ (by simp))
+      (by simpa using view_buf_lt hw)
     simp only [List.append_nil] at h1 h2
     refine ⟨h1, by simpa [B.isNullable] using hn, _, h2, ?_⟩
     intro hs; exact rowOf_false_of_isSome (hn.trans hs) _
@@ -261,7 +262,7 @@ theorem pushDefaultK_appends : ∀ (b : B) (k : Nat) (b' : B), WFB b → DefSafe
     obtain ⟨g1, g2⟩ := dict_append hwf (List.replicate k .null) [] [] hidx hw'.2.1 hdec (by simp)
       (by simpa using hw'.2.2.1) rfl (by
         intro k' hk' j hj
-        rw [(List.mem_replicate.1 hk').2] at hj; cases hj)
+        rw [(List.mem_replicate.1 hk').2] at hj; cases hj) (by rw [List.append_nil]; exact DictVals.of_wf hwf)
     simp only [List.append_nil] at g1 g2
     refine ⟨g1, _, by simp, g2, ?_⟩
     intro _
@@ -352,6 +353,7 @@ theorem pushNone_appends : ∀ (b b' : B), WFB b → Safe b → pushNone b = .ok
     have hv : VLen v views.length := by simp only [WFB] at hwf; exact hwf.1
     obtain ⟨rfl, hs⟩ := isSome_of_setValidity_false hv h1
     have := view_step hwf false (packInline []) [] (decodeView_inline_isOk _ _ (by simp))
+      (by simpa using view_buf_lt hwf)
     simp only [List.append_nil] at this
     rwa [rowOf_false_of_isSome hs] at this
   | .fixedSizeBinary p n len v buf cur, b', hwf, _, h => by
@@ -425,7 +427,7 @@ theorem pushNone_appends : ∀ (b b' : B), WFB b → Safe b → pushNone b = .ok
     obtain ⟨hidx, hdec⟩ := pushNone_appends idx idx' hw'.1 hsafe.2.1 ((ctx_ok _ _ _).1 h1)
     have := dict_append hwf [.null] [] [] hidx hw'.2.1 hdec (by simp) (by simpa using hw'.2.2.1) rfl (by
       intro k' hk' j hj
-      simp at hk'; subst hk'; cases hj)
+      simp at hk'; subst hk'; cases hj) (by rw [List.append_nil]; exact DictVals.of_wf hwf)
     simpa [dictRow] using this
   | .union p fs types offs cur, b', _, _, h => by simp [pushNone, ctx_ok, fail] at h
 
@@ -447,6 +449,48 @@ theorem convLeaf_int {ext : Ext} {k : LeafKind} {t : IntTy} {v val j : Int}
     | (cases hj; exact tryInto_ok h)
     | (cases hj; exact e1 h)
     | (cases hj; split at h <;> first | exact e1 h | exact tryInto_ok h | cases h)
+
+theorem isUtf8B_takeRest (b : B) : (takeRest b).isUtf8B = b.isUtf8B := by cases b <;> rfl
+
+theorem isIntLeaf_takeRest (b : B) : (takeRest b).isIntLeaf = b.isIntLeaf := by
+  cases b with
+  | leaf p k v vals => cases k <;> rfl
+  | _ => rfl
+
+/-- a string pushed into a Utf8 / LargeUtf8 builder appends exactly that string -/
+theorem pushScalar_utf8_str (ext : Ext) {vals vals' : B} {s : String} (hw : WFB vals) (hu : vals.isUtf8B = true)
+    (h : pushScalar ext vals (.str s) = .ok vals') : dec vals' = dec vals ++ [.str (strBytes s)] := by
+  cases vals with
+  | bytes p ty v offs data =>
+    have hty : isUtf8Ty ty = true := hu
+    simp only [pushScalar] at h
+    obtain ⟨bs, hval, h2⟩ := (bind_ok _ _ _).1 h
+    obtain ⟨v', h3, h4⟩ := (bind_ok _ _ _).1 h2
+    obtain ⟨o1, h5, h6⟩ := (bind_ok _ _ _).1 h4
+    obtain ⟨o2, h7, h8⟩ := (bind_ok _ _ _).1 h6
+    cases h8
+    have hv : VLen v (offs.length - 1) := by simp only [WFB] at hw; exact hw.2
+    obtain ⟨rfl, _⟩ := setValidity_ok hv h3
+    obtain ⟨l, hl, rfl⟩ := duplicateLast_ok h5
+    rw [bytes_last hw] at hl; cases hl
+    have := incrementLast_snoc h7
+    subst this
+    obtain ⟨_, g2⟩ := bytes_step hw true bs
+    rw [rowOf_true] at g2
+    simp only [hty, if_true, scalarToString] at hval
+    cases hval
+    rw [g2]
+    simp [bytesVal, hty]
+  | _ => simp [B.isUtf8B] at hu
+
+/-- the dictionary invariant "values decoded = index entries" survives a new entry -/
+theorem DictVals_push (ext : Ext) {vals vals' : B} {index : List String} {s : String} (hw : WFB vals)
+    (hd : DictVals vals index) (h : pushScalar ext vals (.str s) = .ok vals') : DictVals vals' (index ++ [s]) := by
+  intro hu
+  have hu0 : vals.isUtf8B = true := by
+    rw [← isUtf8B_takeRest, ← pushScalar_takeRest ext vals _ vals' h, isUtf8B_takeRest]; exact hu
+  rw [pushScalar_utf8_str ext hw hu0 h, hd hu0]
+  simp
 
 /-- the row a scalar call appends (and, for an integer call, that an integer row shows exactly that integer) -/
 theorem pushScalar_appends (ext : Ext) : ∀ (b : B) (x : SVal) (b' : B), WFB b → Safe b → pushScalar ext b x = .ok b' →
@@ -493,13 +537,13 @@ theorem pushScalar_appends (ext : Ext) : ∀ (b : B) (x : SVal) (b' : B), WFB b 
   | .bytesView p ty v views buf, x, b', hwf, _, h => by
     simp only [pushScalar] at h
     obtain ⟨bs, _, h2⟩ := (bind_ok _ _ _).1 h
+    obtain ⟨vp, hp, h2⟩ := (bind_ok _ _ _).1 h2
     obtain ⟨v', h3, h4⟩ := (bind_ok _ _ _).1 h2
     have hv : VLen v views.length := by simp only [WFB] at hwf; exact hwf.1
     obtain ⟨rfl, _⟩ := setValidity_ok hv h3
-    obtain ⟨d, extra, hp, hd⟩ := viewPushValue_spec views buf bs
-    rw [hp] at h4
+    obtain ⟨d, extra, rfl, hd, hlen, _⟩ := viewPushValue_ok hp
     cases h4
-    obtain ⟨g1, g2⟩ := view_step hwf true d extra hd
+    obtain ⟨g1, g2⟩ := view_step hwf true d extra hd (hlen (view_buf_lt hwf))
     rw [rowOf_true] at g2
     refine ⟨g1, _, g2, ?_⟩
     intro t w j _ _ hj
@@ -542,7 +586,7 @@ theorem pushScalar_appends (ext : Ext) : ∀ (b : B) (x : SVal) (b' : B), WFB b 
           simp at hk'; subst hk'
           have := hint _ _ j hsafe.1 rfl hj
           subst this
-          simp; omega)
+          simp; omega) (by rw [List.append_nil]; exact DictVals.of_wf hwf)
         simp only [List.append_nil] at g1 g2
         refine ⟨g1, _, g2, ?_⟩
         intro t w j hd
@@ -568,7 +612,7 @@ theorem pushScalar_appends (ext : Ext) : ∀ (b : B) (x : SVal) (b' : B), WFB b 
           simp at hk'; subst hk'
           have := hint _ _ j hsafe.1 rfl hj
           subst this
-          simp)
+          simp) (DictVals_push ext hw'.2.1 (DictVals.of_wf hwf) h1)
         refine ⟨g1, _, g2, ?_⟩
         intro t w j hd
         simp [B.isDict] at hd
